@@ -36,6 +36,7 @@ pub fn check(sc: &Scenario, out: &RunOutput) -> OracleResult {
     let k3 = |k: &ConnKey| (k.local, k.remote, k.conn_id_send);
     let mut last_sock: HashMap<std::net::SocketAddr, (T, usize, usize, usize)> = HashMap::new();
     let mut cancels: Vec<(T, usize)> = vec![];
+    let mut token_cancels: Vec<(T, usize)> = vec![];
     for (idx, (t, ev)) in h.evs.iter().enumerate() {
         match ev {
             Ev::Probe(ProbeEvent::ConnCreated(k)) => lives.entry(k3(k)).or_default().created.push(*t),
@@ -54,6 +55,7 @@ pub fn check(sc: &Scenario, out: &RunOutput) -> OracleResult {
                 if let Some(rest) = s.strip_prefix("cancel socket token node ") {
                     if let Ok(n) = rest.trim().parse::<usize>() {
                         cancels.push((*t, n));
+                        token_cancels.push((*t, n));
                     }
                 }
                 if let Some(rest) = s.strip_prefix("kill ") {
@@ -280,6 +282,38 @@ pub fn check(sc: &Scenario, out: &RunOutput) -> OracleResult {
                 }
                 _ => {}
             }
+        }
+    }
+
+    // (e') "all stream halves then report errors": a call on a stream half that is pending when
+    // the token is cancelled, or is made afterwards, returns; it does not wait for ever.
+    for (tc, n) in &token_cancels {
+        if out.t_end < *tc + crate::hist::SEC {
+            continue;
+        }
+        let mut pending: HashMap<(usize, Half, u8), T> = HashMap::new();
+        for (t, a) in h.apps() {
+            if a.node != *n || a.conn >= 1000 {
+                continue;
+            }
+            let class = match &a.kind {
+                AppKind::ReadStart { .. } | AppKind::Read { .. } => 0,
+                AppKind::WriteBlocked { .. } | AppKind::Write { .. } => 1,
+                AppKind::FlushStart | AppKind::Flush => 2,
+                AppKind::ShutdownStart | AppKind::Shutdown => 3,
+                _ => continue,
+            };
+            if matches!(a.kind, AppKind::ReadStart { .. } | AppKind::WriteBlocked { .. } | AppKind::FlushStart | AppKind::ShutdownStart) {
+                pending.insert((a.conn, a.half, class), t);
+            } else {
+                pending.remove(&(a.conn, a.half, class));
+            }
+        }
+        let mut p: Vec<_> = pending.into_iter().collect();
+        p.sort_by_key(|((c, h, k), t)| (*c, *h == Half::W, *k, *t));
+        for ((conn, half, class), t0) in p {
+            let name = ["read", "write", "flush", "shutdown"][class as usize];
+            res.violate(P, "call-hangs-after-cancel", out.t_end, format!("node {}: {} on stream {} ({:?} half) pending since {} never returned although the socket's token was cancelled at {} (run ended at {})", n, name, conn, half, crate::hist::fmt_t(t0), crate::hist::fmt_t(*tc), crate::hist::fmt_t(out.t_end)));
         }
     }
 
